@@ -128,8 +128,8 @@ func Main(id, level string, body func(r *Run), replay func(r *Run, raw json.RawM
 	if *budget > 0 {
 		r.deadline = r.start.Add(*budget)
 	}
-	if *knownF != "" {
-		if b, err := os.ReadFile(*knownF); err == nil {
+	for _, kfn := range strings.Split(*knownF, ",") {
+		if b, err := os.ReadFile(kfn); err == nil && kfn != "" {
 			var kf struct {
 				Findings []knownEntry `json:"findings"`
 			}
